@@ -125,6 +125,32 @@ def p_unknown_operator(x):
     return 'operator %r is evaluated without ValueError' % op
 
 
+def p_same_text_other_tree(x):
+    """the answer follows the structure of the tree, not its printed form: two trees that print the same text, asked the
+    same question one after the other, each answer as their own structure says"""
+    name, cand = x
+    def leaf(n, op=None, v=None):
+        return deps.VersionedRelationship(name=n, operator=op, version=v) if op else deps.Relationship(name=n)
+    def tv(r):
+        # the three-valued answer from the structure, leaves asked as new objects
+        if isinstance(r, deps.OrRelationships):
+            return or_tv([tv(m) for m in r.relationships])
+        if isinstance(r, deps.AndRelationships):
+            return and_tv([tv(m) for m in r.relationships])
+        return (deps.VersionedRelationship(name=r.name, operator=r.operator, version=r.version) if isinstance(r, deps.VersionedRelationship) else deps.Relationship(name=r.name)).matches(name, cand)
+    O, A = deps.OrRelationships.from_relationships, deps.AndRelationships.from_relationships
+    pairs = [(O(A(leaf('a', '>=', '2'), leaf('b')), leaf('a')), A(leaf('a', '>=', '2'), O(leaf('b'), leaf('a')))),
+             (A(leaf('a', '<<', '2'), A(leaf('b'), leaf('a', '>=', '1'))), A(A(leaf('a', '<<', '2'), leaf('b')), leaf('a', '>=', '1'))),
+             (O(leaf('c'), A(leaf('a', '=', '1'), leaf('c'))), A(O(leaf('c'), leaf('a', '=', '1')), leaf('c')))]
+    for t1, t2 in pairs:
+        for t in (t1, t2, t1, t2):
+            want = tv(t)
+            got = t.matches(name, cand)
+            if got is not want:
+                return 'the tree %r (printed %r) answers %r for (%r, %r); its structure says %r' % (_deps.rel_tree(t), str(t), got, name, cand, want)
+    return None
+
+
 def p_names(x):
     """a relationship answers for a candidate only when the candidate name is the name it carries, character for character"""
     rn, cn = x
@@ -191,6 +217,7 @@ def run(ctx):
     ctx.exhaustive.append('all %d result vectors over {True(simple), True(versioned), False, None} up to width %d through '
                           'Or / And / match_relationships' % (len(vectors), W))
     fails = ctx.prop('prop:combinators', vectors, p_vector)
+    fails += ctx.prop('prop:same-text-other-tree', [(n, c) for n in ('a', 'b', 'c', 'z') for c in (None, '1', '1.5', '2', '3')], p_same_text_other_tree)
     fails += ctx.prop('prop:unknown-operator', [(op, c) for op in ('==', '!=', '~', '=>', '=<', '<>', 'eq', '', '>>>', '> =') for c in ('1.0', '0.9', '2', None)], p_unknown_operator)
     fails += ctx.prop('prop:names', [(a, b) for a in REL_NAMES for b in REL_NAMES], p_names)
     vs5 = ['1.0', '1.5', '2.0', '1.0-1', '2:0.1']
